@@ -77,6 +77,38 @@ def enum_notxoreq(tier, seed):
     return [{"ast": e} for e in trees]
 
 
+def enum_bipartite(tier, seed):
+    """(A1|..|An) => (B1&..&Bm) and (A1|..|An) => !(B1|..|Bm): n*m requires / excludes clauses, i.e. pseudo-complex at
+    any size, with polynomial clause conversion.  (n, m) are chosen so that n*m lies just below and just above the
+    thresholds an implementation may have (powers of two and round decimal numbers up to 2 048; thorough: 4 096)."""
+    import math
+
+    def chain(op, xs):
+        e = xs[0]
+        for x in xs[1:]:
+            e = [op, e, x]
+        return e
+    limits = [16, 32, 64, 100, 128, 200, 250, 256, 500, 512, 1000, 1024, 2000, 2048] + ([3000, 4096] if tier == "thorough" else [])
+    pairs = set()
+    for t in limits:
+        r = max(1, int(math.isqrt(t)))
+        for n in (r, 2, max(1, r // 2)):
+            pairs.add((n, t // n))                  # n*m <= t
+            pairs.add((n, t // n + 1))              # n*m > t
+            pairs.add((t // n + 1, n))
+    out = []
+    for n, m in sorted(pairs):
+        if n * m > (4200 if tier == "thorough" else 2150) or max(n, m) > 150:
+            continue          # chains of many hundred operands exceed the interpreter's recursion limit in any recursive walk
+        a = [["T", f"A{i}"] for i in range(n)]
+        b = [["T", f"B{i}"] for i in range(m)]
+        out.append({"ast": ["IMPLIES", chain("OR", a), chain("AND", b)], "expect": "pseudo", "shape": [n, m]})
+        out.append({"ast": ["IMPLIES", chain("OR", a), ["NOT", chain("OR", b)]], "expect": "pseudo", "shape": [n, m]})
+    if tier != "thorough":
+        out = out[int(seed) % 2::2]
+    return out
+
+
 def enum_andornot(tier, seed):
     """Every NOT/AND/OR tree of depth <= 3 over {A,B} (182 712 trees): the negation-propagation / CNF part of
     split_constraint and the pseudo-/strict-complex decision, where depth 2 is too shallow (OR over OR over AND,
@@ -353,6 +385,8 @@ SUBS = [
     Sub("exhaustive-and-or-not-depth3", check, enum=enum_andornot, nontrivial=nontrivial, classes=classes,
         exhaustive={"quick": False, "thorough": True}),
     Sub("nested-xor-equivalence", check, enum=enum_notxoreq, nontrivial=nontrivial, classes=classes, exhaustive=False),
+    Sub("bipartite-constraints", check, enum=enum_bipartite, nontrivial=lambda case: True,
+        classes=lambda case: {"bipartite", "clauses>1024" if case["shape"][0] * case["shape"][1] > 1024 else "clauses<=1024"}),
     Sub("random", check, gen=lambda tier: random_cases(), nontrivial=nontrivial, classes=classes,
         n={"quick": 1000, "thorough": 8000}, essential=["documented-form", "non-logical"]),
 ]
